@@ -95,8 +95,8 @@ theorem cnt_ioToks (h : Nat) (d : IoData) : cnt h (ioToks d) = cnt h d.rd.toList
 
 /-! ### bodies of the two functors -/
 
-theorem tc_setterBody (h : Nat) (s : St) (fd : Option Nat) (e : Ev) (t : Tok) (ok : Bool) :
-    tc h (setterBody s fd e t ok) = tc h s + cnt h [t] ∧ (setterBody s fd e t ok).next = s.next := by
+theorem tc_setterBody (h : Nat) (s : St) (fd : Option Nat) (e : Ev) (t : Tok) (ok : Bool) (er : Code) :
+    tc h (setterBody s fd e t ok er) = tc h s + cnt h [t] ∧ (setterBody s fd e t ok er).next = s.next := by
   unfold setterBody
   cases fd with
   | none => simp [push, tc, queueToks]; omega
@@ -156,9 +156,9 @@ theorem tc_dispatchAll (h : Nat) (evs : List Event) (s : St) :
 
 /-! ### every atomic step moves tokens, never duplicates or destroys them -/
 
-theorem setterBody_frame (s : St) (fd : Option Nat) (e : Ev) (t : Tok) (ok : Bool) :
-    (setterBody s fd e t ok).running = s.running ∧ (setterBody s fd e t ok).phase = s.phase
-    ∧ (setterBody s fd e t ok).log = s.log := by
+theorem setterBody_frame (s : St) (fd : Option Nat) (e : Ev) (t : Tok) (ok : Bool) (er : Code) :
+    (setterBody s fd e t ok er).running = s.running ∧ (setterBody s fd e t ok er).phase = s.phase
+    ∧ (setterBody s fd e t ok er).log = s.log := by
   unfold setterBody
   cases fd <;> cases ok <;> cases e <;> simp [push]
 
@@ -201,12 +201,12 @@ theorem tc_opStep (h : Nat) (s : St) (o : Op) : StepOK h s (opStep s o) := by
       have := cnt_removeSlot h slot s.timers t hf
       simp [tc, queueToks] at this ⊢
       omega
-  | setIo fd e ok =>
+  | setIo fd e ok er =>
     simp only [opStep]
     split
     · right; simp [push, tc, queueToks, one]; omega
     · right
-      have := tc_setterBody h { s with next := s.next + 1 } fd e ⟨s.next, .io⟩ ok
+      have := tc_setterBody h { s with next := s.next + 1 } fd e ⟨s.next, .io⟩ ok er
       refine ⟨this.2, ?_⟩
       rw [this.1]
       simp [tc, one]
@@ -260,9 +260,9 @@ theorem tc_loopStep (h : Nat) (s : St) (i : LoopInp) (hrun : s.phase ≠ .execut
       | fn t => simp [execItem, tc, hq, runToks, queueToks]; omega
       | ev t c n => simp [execItem, tc, hq, runToks, queueToks]; omega
       | setter fd e t =>
-        have h1 := tc_setterBody h s fd e t i.selOk
-        have h2 := setterBody_frame s fd e t i.selOk
-        have h3 := tc_clearRunning h (setterBody s fd e t i.selOk) (s.counter - 1) .draining
+        have h1 := tc_setterBody h s fd e t i.selOk i.selErr
+        have h2 := setterBody_frame s fd e t i.selOk i.selErr
+        have h3 := tc_clearRunning h (setterBody s fd e t i.selOk i.selErr) (s.counter - 1) .draining
         simp only [execItem]
         refine ⟨h1.2, ?_⟩
         rw [h2.1, hq] at h3
@@ -301,11 +301,11 @@ theorem runOK_step (s : St) (a : Act) (hr : RunOK s) : RunOK (step s a) := by
   cases a with
   | op o =>
     cases o with
-    | setIo fd e ok =>
+    | setIo fd e ok er =>
       simp only [step, opStep]
       split
       · simpa [push] using hr
-      · have := setterBody_frame { s with next := s.next + 1 } fd e ⟨s.next, .io⟩ ok
+      · have := setterBody_frame { s with next := s.next + 1 } fd e ⟨s.next, .io⟩ ok er
         rw [this.1, this.2.1]; exact hr
     | cancelIo fd =>
       cases fd with
